@@ -111,6 +111,7 @@ func main() {
 	repo := flag.String("repo", "/repo", "repository root")
 	verif := flag.String("verif", "/verif", "verification root")
 	prop := flag.String("prop", "", "property id")
+	namesOut := flag.String("names-out", "", "merge the declared names of the functions under contract for -prop into this JSON file and exit")
 	tier := flag.String("tier", "quick", "quick|thorough")
 	fnRe := flag.String("fn", "", "only functions matching this regexp (debug)")
 	verbose := flag.Bool("v", false, "verbose")
@@ -193,6 +194,10 @@ func main() {
 	}
 	sort.Strings(keys)
 	done := map[*ssa.Function]bool{}
+	namesCollected := map[string][]string{}
+	if data, err := os.ReadFile(filepath.Join(*verif, "names.json")); err == nil {
+		json.Unmarshal(data, &P.nameSnap)
+	}
 	var sweepExcl *regexp.Regexp
 	if cfg.SweepExcl != "" {
 		sweepExcl = regexp.MustCompile(cfg.SweepExcl)
@@ -234,6 +239,12 @@ func main() {
 				reports = append(reports, &FnReport{Fn: fn.String(), HasCtr: true, Notes: []string{"contract of " + fn.String() + " is TRUSTED (body not verified)"}})
 				continue
 			}
+			if *namesOut != "" {
+				if ct != nil {
+					namesCollected[fn.String()] = declNames(fn)
+				}
+				continue
+			}
 			rep := P.verifyFunction(fn, ct)
 			for _, o := range rep.Obls {
 				if len(o.Props) == 0 {
@@ -245,6 +256,19 @@ func main() {
 				underContract = append(underContract, fn.String())
 			}
 		}
+	}
+	if *namesOut != "" {
+		merged := map[string][]string{}
+		if data, err := os.ReadFile(*namesOut); err == nil {
+			json.Unmarshal(data, &merged)
+		}
+		for k, v := range namesCollected {
+			merged[k] = v
+		}
+		data, _ := json.MarshalIndent(merged, "", " ")
+		os.WriteFile(*namesOut, data, 0o644)
+		fmt.Printf("names: %d functions recorded for %s (%d in file)\n", len(namesCollected), *prop, len(merged))
+		return
 	}
 	for _, l := range P.lemmas {
 		if !hasProp(l.Props, *prop) && !P.usedLemmas[l.Name] {
